@@ -128,6 +128,8 @@ type Engine struct {
 	feasTimeout   int
 	feasCalls     int
 	feasMs        int64
+	inHook        bool
+	objTypes      map[int]types.Type
 	enabledModels map[string]bool
 	redirects     map[string]*ssa.Function
 	mainPkg       *ssa.Package
@@ -1392,7 +1394,11 @@ func (e *Engine) step(st *State, fr *Frame, instr ssa.Instruction) {
 	case *ssa.DebugRef:
 	case *ssa.Alloc:
 		et := ins.Type().(*types.Pointer).Elem()
-		fr.env[ins] = singlePtr(e.alloc(st, zeroValue(et)))
+		l := e.alloc(st, zeroValue(et))
+		if _, ok := et.Underlying().(*types.Struct); ok {
+			e.objTypes[l.Obj] = et
+		}
+		fr.env[ins] = singlePtr(l)
 	case *ssa.Store:
 		e.store(st, e.get(st, fr, ins.Addr), e.get(st, fr, ins.Val), site)
 	case *ssa.UnOp:
